@@ -282,6 +282,14 @@ def build_wrapped(out, harness_src, wraps, flags=None, tag="asan", extra=()):
     return _link(out, ["gcc"] + flags + CFLAGS_COMMON + [f"-I{VERIF}/harness"] + list(extra), srcs + [wl, "-lpthread"])
 
 
+def _sched_stats(prop):
+    try:
+        from . import sched
+        return sched.STATS.get(prop)
+    except Exception:
+        return None
+
+
 def write_case(prop, name, lines, tier, seed, ext="ops"):
     d = os.path.join(OUT, prop)
     os.makedirs(d, exist_ok=True)
@@ -407,12 +415,16 @@ def finish(prop, tier, seed, proof, res, t0, search=None):
             "proof_failures": proof["failures"],
             "generated_from_source": proof["gen"],
             "evaluations": res.evaluations, "distinct_nontrivial": len(res.nontrivial),
-            "rule": res.rule, "samples": res.samples[:6],
+            "rule": res.rule + (" PLUS systematic schedule enumeration (vlib/sched.py): for a few small multi-thread base scenarios (regression corpus first) every "
+                                "schedule within the stated preemption bound of the non-preemptive run, smallest deviation first, up to the per-base budget, each "
+                                "executed on the real library and judged/replayed like any other case" if _sched_stats(prop) else ""),
+            "samples": res.samples[:6],
             "traces_validated_against_impl": res.evaluations,
             "divergences": len(res.divergences), "impl_violations": len(res.impl_violations),
             "known_findings_seen": sorted(seen_known),
             "search_ran": searched is not None,
             **res.extra,
+            **({"schedule_enumeration": _sched_stats(prop)} if _sched_stats(prop) else {}),
         },
         "assumptions": res.assumptions,
         "wall_s": round(time.time() - t0, 2),
